@@ -168,6 +168,7 @@ type TopologicalSortIterator struct {
 	invState []int
 	n        int
 	first    bool
+	done     bool //Set when Next returns false so that it keeps returning false.
 }
 
 //TopologicalSorts returns an iterator which iterates over all topological sorts of {0, 1, ... , n-1} according to the partial order less. If less(i,j) == true, then this only iterates over permutations where i appears before j.
@@ -201,6 +202,10 @@ func (iter *TopologicalSortIterator) InverseValue() []int {
 
 //Next attempts to advance the iterator to the next permutation, returning true if there is one and false otherwise.
 func (iter *TopologicalSortIterator) Next() bool {
+	if iter.done {
+		return false
+	}
+
 	if iter.first {
 		iter.first = false
 		return true
@@ -230,6 +235,8 @@ func (iter *TopologicalSortIterator) Next() bool {
 		iter.state[k] = k
 		iter.invState[k] = k
 	}
+	//The loop above has reset the state to the first permutation so record that we have finished.
+	iter.done = true
 	return false
 }
 
